@@ -1,4 +1,5 @@
 import DFV.Lemmas.C09ExamplesSub
+import DFV.Lemmas.C09IeeeV
 /-!
 # C09 - OVF files round-trip fields and follow the OVF 1.0/2.0 format
 
@@ -761,5 +762,1034 @@ example : ∃ F g, toOvf toyCodec exFieldS "bin8" false = .ok F ∧
 /-- `extend_vector_ignored` applies to the three-component `exField` -/
 example : toOvf toyCodec exField "txt" true = toOvf toyCodec exField "txt" false :=
   extend_vector_ignored toyCodec exField (by decide) "txt"
+
+/-! ## The file as bytes
+
+`Model/C09Lex.lean`: the header as the bytes `_to_ovf` writes (`headerBytes`, `fileBytes`) and the
+header loop of `_from_ovf` on bytes (`lexBytes`: `next(f)`, `for line in f`, `decode("utf-8")`,
+`lower().startswith("# begin: data")`, `line[1:].split(":")`, `strip()`), `fromOvfBytes` =
+`_from_ovf` on a byte string.  `N : NumIO` is Python's `repr` / `float` for header numbers (trusted
+pair, `N.Lawful`: `float(repr x) = x`, the text has no `:` and no white space); `tb` is what pandas
+makes of the bytes of a text data section.  `WrittenTextOk f e`: the user's strings (mesh unit,
+labels, field unit) have no `:`, no newline and no white space at their ends. -/
+
+/-- **Byte level, binary files**: `_from_ovf` run on the bytes `_to_ovf` wrote (first line,
+`# key: value` lines in UTF-8, data line, data section) sees exactly the file the writer
+assembled - every header line is split, stripped and converted back to the value that was
+formatted. -/
+theorem written_bytes_read {α} [DecidableEq α] (N : NumIO) (L : N.Lawful)
+    (tb : List Byte → List (List α) × List String) (c : Codec α) (isWord : Char → Bool)
+    (reserved : String → Bool) (f : OField α) (rep : String) (extend : Bool) (F : OvfFile α)
+    (hF : toOvf c f rep extend = .ok F) (T : WrittenTextOk f (extend && f.nvdim == 1))
+    (b : List Byte) (hb : F.body = .bin b) (side : Option (List (String × Region))) :
+    fromOvfBytes N tb c isWord reserved (fileBytes N F) side = fromOvf c isWord reserved F side := by
+  have hF' : toOvfE c f rep (extend && f.nvdim == 1) = .ok F := hF
+  obtain ⟨labels, rw, K, _, _, hrw⟩ := written_fileOk N c f rep _ F hF' T
+  obtain ⟨_, _, _, hrw', _, _, hbody⟩ := toOvfE_shape c f rep _ F hF'
+  rw [hrw] at hrw'; injection hrw' with hrw'; subst hrw'
+  have hbin : isBinary rw = true := by
+    rcases hbody with ⟨_, _, hne⟩ | ⟨_, _, ht, _⟩
+    · exact (repWords_ok rep rw hrw).2.mpr hne
+    · rw [hb] at ht; cases ht
+  exact fromOvfBytes_bin N L tb c isWord reserved F _ rw K hbin b hb side
+
+/-- **Byte level, text files**: the same for the header of a `txt` file, the rows being what
+pandas (`tb`) makes of the bytes of the data section. -/
+theorem written_bytes_read_txt {α} [DecidableEq α] (N : NumIO) (L : N.Lawful)
+    (tb : List Byte → List (List α) × List String) (c : Codec α) (isWord : Char → Bool)
+    (reserved : String → Bool) (f : OField α) (extend : Bool) (F : OvfFile α)
+    (hF : toOvf c f "txt" extend = .ok F) (T : WrittenTextOk f (extend && f.nvdim == 1))
+    (rows : List (List α)) (footer : List String) (hb : F.body = .text rows footer)
+    (tbytes : List Byte) (htb : tb tbytes = (rows, footer)) (side : Option (List (String × Region))) :
+    fromOvfBytes N tb c isWord reserved (headerBytes N F ++ tbytes) side = fromOvf c isWord reserved F side := by
+  have hF' : toOvfE c f "txt" (extend && f.nvdim == 1) = .ok F := hF
+  obtain ⟨labels, rw, K, _, _, hrw⟩ := written_fileOk N c f "txt" _ F hF' T
+  have hbin : isBinary rw = false := by
+    cases h : isBinary rw with
+    | false => rfl
+    | true => exact absurd rfl ((repWords_ok "txt" rw hrw).2.mp h)
+  exact fromOvfBytes_text N L tb c isWord reserved F _ rw K hbin rows footer hb tbytes htb side
+
+
+/-- **A file cut inside its header is rejected** - any file (written or foreign) whose header
+lines the loop reads back (`FileOk`), any strict prefix `P` of its header bytes: cut in the
+first line, between lines, in the middle of a line or of a multi-byte character, in the data
+line, or just before the newline that ends it. -/
+theorem cut_in_header_rejected {α} [DecidableEq α] (N : NumIO) (L : N.Lawful)
+    (tb : List Byte → List (List α) × List String) (htb : (tb []).1 = [])
+    (c : Codec α) (isWord : Char → Bool) (reserved : String → Bool)
+    (F : OvfFile α) (hs : List HLine) (ws : List String) (K : FileOk N F hs ws)
+    (P : List Byte) (hP : P <+: headerBytes N F) (hne : P ≠ headerBytes N F)
+    (side : Option (List (String × Region))) :
+    ∃ e, fromOvfBytes N tb c isWord reserved P side = .error e :=
+  header_prefix_rejected N L tb htb c isWord reserved F hs ws K P hP hne side
+
+/-- **Every truncation point of a written binary file**: the bytes of a file written by
+`_to_ovf` (bin4 or bin8, with or without `extend_scalar`), cut after any number `t` of bytes
+short of the end of the payload - inside the first line, between header lines, in the middle
+of a header line or of a multi-byte character, inside the data line, inside the check value,
+inside or between values - are never read into a field.  (From the end of the payload on, the
+file reads as the whole file does: `cut_after_payload_same_field`.) -/
+theorem every_truncation_rejected {α} [DecidableEq α] (N : NumIO) (L : N.Lawful)
+    (tb : List Byte → List (List α) × List String) (htb : (tb []).1 = [])
+    (c : Codec α) (isWord : Char → Bool) (reserved : String → Bool)
+    (f : OField α) (V : Valid f) (rep : String) (w : Nat)
+    (hrep : (rep = "bin4" ∧ w = 4) ∨ (rep = "bin8" ∧ w = 8)) (extend : Bool)
+    (T : WrittenTextOk f (extend && f.nvdim == 1))
+    (F : OvfFile α) (hF : toOvf c f rep extend = .ok F)
+    (t : Nat) (ht : t < (headerBytes N F).length + w * (1 + natProd f.mesh.n * writeDim f extend))
+    (side : Option (List (String × Region))) :
+    ∃ e, fromOvfBytes N tb c isWord reserved ((fileBytes N F).take t) side = .error e := by
+  have hF' : toOvfE c f rep (extend && f.nvdim == 1) = .ok F := hF
+  obtain ⟨labels, rw, K, _, _, hrw⟩ := written_fileOk N c f rep _ F hF' T
+  obtain ⟨_, _, _, _, _, _, hbody⟩ := toOvfE_shape c f rep _ F hF'
+  have hne : rep ≠ "txt" := by rcases hrep with ⟨rfl, _⟩ | ⟨rfl, _⟩ <;> decide
+  rcases hbody with ⟨b, hb, _⟩ | ⟨_, _, _, ht'⟩
+  · have hbin : isBinary rw = true := (repWords_ok rep rw hrw).2.mpr hne
+    have hfile : fileBytes N F = headerBytes N F ++ b := by unfold fileBytes; rw [hb]
+    rw [hfile]
+    rcases take_append_cases (headerBytes N F) b t with ⟨hlt, e⟩ | ⟨hge, e⟩
+    · rw [e]
+      exact header_prefix_rejected N L tb htb c isWord reserved F _ rw K _ (List.take_prefix _ _)
+        (fun h => by
+          have := congrArg List.length h
+          rw [List.length_take] at this
+          omega) side
+    · rw [e]
+      -- the header is complete: the cut is inside the data section
+      have K' : FileOk N ({ F with body := Body.bin (b.take (t - (headerBytes N F).length)) } : OvfFile α)
+          (headHs f _ labels) rw :=
+        { lines := K.lines, first := K.first, ok := K.ok, words := K.words }
+      have := fromOvfBytes_bin N L tb c isWord reserved
+        ({ F with body := Body.bin (b.take (t - (headerBytes N F).length)) } : OvfFile α) _ rw K' hbin _ rfl side
+      unfold fileBytes at this
+      simp only at this
+      have hh : headerBytes N ({ F with body := Body.bin (b.take (t - (headerBytes N F).length)) } : OvfFile α)
+          = headerBytes N F := rfl
+      rw [hh] at this
+      rw [this]
+      exact truncated_written_rejected c isWord reserved f V rep w hrep extend F hF b hb
+        (t - (headerBytes N F).length) (by omega) side
+  · exact absurd ht' hne
+
+
+/-- From the end of the payload on, a cut changes nothing: the bytes of a written binary file
+cut anywhere at or after the last payload byte (before the newline, inside the footer) read to
+exactly what the whole file reads to - the reader never looks at the footer. -/
+theorem cut_after_payload_same_field {α} [DecidableEq α] (N : NumIO) (L : N.Lawful)
+    (tb : List Byte → List (List α) × List String)
+    (c : Codec α) (isWord : Char → Bool) (reserved : String → Bool)
+    (f : OField α) (V : Valid f) (rep : String) (w : Nat)
+    (hrep : (rep = "bin4" ∧ w = 4) ∨ (rep = "bin8" ∧ w = 8)) (extend : Bool)
+    (T : WrittenTextOk f (extend && f.nvdim == 1))
+    (F : OvfFile α) (hF : toOvf c f rep extend = .ok F)
+    (t : Nat) (ht : (headerBytes N F).length + w * (1 + natProd f.mesh.n * writeDim f extend) ≤ t)
+    (side : Option (List (String × Region))) :
+    fromOvfBytes N tb c isWord reserved ((fileBytes N F).take t) side
+      = fromOvfBytes N tb c isWord reserved (fileBytes N F) side := by
+  have hF' : toOvfE c f rep (extend && f.nvdim == 1) = .ok F := hF
+  obtain ⟨labels, rw, K, hlines, hfirst, hrw⟩ := written_fileOk N c f rep _ F hF' T
+  obtain ⟨_, _, _, _, _, _, hbody⟩ := toOvfE_shape c f rep _ F hF'
+  have hne : rep ≠ "txt" := by rcases hrep with ⟨rfl, _⟩ | ⟨rfl, _⟩ <;> decide
+  have hw : w = 4 ∨ w = 8 := by rcases hrep with ⟨_, h⟩ | ⟨_, h⟩ <;> simp [h]
+  have hrw' : rw = ["Binary", toString w] := by
+    rcases hrep with ⟨rfl, rfl⟩ | ⟨rfl, rfl⟩ <;> (simp [repWords] at hrw; rw [← hrw]; rfl)
+  rcases hbody with ⟨b, hb, _⟩ | ⟨_, _, _, ht'⟩
+  · have hbin : isBinary rw = true := (repWords_ok rep rw hrw).2.mpr hne
+    have hfile : fileBytes N F = headerBytes N F ++ b := by unfold fileBytes; rw [hb]
+    rw [written_bytes_read N L tb c isWord reserved f rep extend F hF T b hb side, hfile]
+    rcases take_append_cases (headerBytes N F) b t with ⟨hlt, _⟩ | ⟨hge, e⟩
+    · omega
+    · rw [e]
+      have K' : FileOk N ({ F with body := Body.bin (b.take (t - (headerBytes N F).length)) } : OvfFile α)
+          (headHs f _ labels) rw :=
+        { lines := K.lines, first := K.first, ok := K.ok, words := K.words }
+      have := fromOvfBytes_bin N L tb c isWord reserved
+        ({ F with body := Body.bin (b.take (t - (headerBytes N F).length)) } : OvfFile α) _ rw K' hbin _ rfl side
+      unfold fileBytes at this
+      simp only at this
+      have hh : headerBytes N ({ F with body := Body.bin (b.take (t - (headerBytes N F).length)) } : OvfFile α)
+          = headerBytes N F := rfl
+      rw [hh] at this
+      rw [this]
+      apply fromOvf_cut c isWord reserved F b hb
+      intro h ws vd nodes hscan hvd hn
+      rw [hlines, scan_written] at hscan
+      injection hscan with hscan
+      injection hscan with h1 h2
+      subst h1; subst h2
+      rw [hfirst, valueDim_written] at hvd
+      injection hvd with hvd
+      rw [(headerOf_written f _ labels).nodes] at hn
+      injection hn with hn
+      subst hvd; subst hn
+      rw [hrw', (width_words w hw).2, Option.getD_some, (valid_lists f V).2.2, writeDim_eff]
+      omega
+  · exact absurd ht' hne
+
+/-- **Round trip on bytes** (`to_file` then `from_file`, bin4 / bin8): the bytes the writer
+produces - header text in UTF-8 with numbers formatted by `repr`, check value, payload,
+footer - are read back by the byte-level reader to the field of `ovf_roundtrip`: same region
+corners, mesh unit, cell counts, component count, field unit, labels, and every value in its
+own cell and component (unchanged for bin8, float32-rounded for bin4). -/
+theorem ovf_roundtrip_bytes {α} [DecidableEq α] (N : NumIO) (LN : N.Lawful)
+    (tb : List Byte → List (List α) × List String) (c : Codec α) (narrow : α → α) (L : c.Lawful narrow)
+    (isWord : Char → Bool) (W : WordClass isWord) (reserved : String → Bool)
+    (f : OField α) (V : Valid f) (hl : LabelsOk isWord reserved f) (hu : UnitOk f.unit)
+    (T : WrittenTextOk f false)
+    (rep : String) (w : Nat) (hrep : (rep = "bin4" ∧ w = 4) ∨ (rep = "bin8" ∧ w = 8)) :
+    ∃ B g, toOvfBytes N c f rep false = .ok B ∧ fromOvfBytes N tb c isWord reserved B none = .ok g ∧
+      g.mesh.region.pmin = f.mesh.region.pmin ∧ g.mesh.region.pmax = f.mesh.region.pmax ∧
+      g.mesh.region.units = f.mesh.region.units ∧ g.mesh.n = f.mesh.n ∧
+      g.nvdim = f.nvdim ∧ g.unit = f.unit ∧ (1 < f.nvdim → g.vdims = f.vdims) ∧
+      ∀ i j k cc, i < f.mesh.nAt 0 → j < f.mesh.nAt 1 → k < f.mesh.nAt 2 → cc < f.nvdim →
+        g.arr.get [i, j, k, cc] = conv narrow w (f.arr.get [i, j, k, cc]) := by
+  obtain ⟨F, g, hF, hg, rest⟩ := ovf_roundtrip c narrow L isWord W reserved f V hl hu rep w hrep
+  obtain ⟨_, _, _, _, _, _, hbody⟩ := toOvfE_shape c f rep _ F hF
+  have hne : rep ≠ "txt" := by rcases hrep with ⟨rfl, _⟩ | ⟨rfl, _⟩ <;> decide
+  rcases hbody with ⟨b, hb, _⟩ | ⟨_, _, _, ht⟩
+  · refine ⟨fileBytes N F, g, ?_, ?_, rest⟩
+    · unfold toOvfBytes; rw [hF]
+    · rw [written_bytes_read N LN tb c isWord reserved f rep false F hF (by simpa using T) b hb none, hg]
+  · exact absurd ht hne
+
+/-- the byte-level theorems apply: a lawful number format exists (`toyNum_lawful`), the example
+field's strings fit a header line (`exField_text`), and a cut 40 bytes into the file is a
+truncation point below the bound -/
+example : ∃ F, toOvf toyCodec exField "bin4" false = .ok F ∧
+    ∃ e, fromOvfBytes toyNum toyText toyCodec isWordC (fun s => s == "norm") ((fileBytes toyNum F).take 40) none
+      = .error e := by
+  obtain ⟨F, g, hF, _⟩ := ovf_roundtrip toyCodec id toyCodec_lawful isWordC isWordC_class (fun s => s == "norm") exField
+    exField_valid exField_labels exField_unit "bin4" 4 (Or.inl ⟨rfl, rfl⟩)
+  refine ⟨F, hF, ?_⟩
+  exact every_truncation_rejected toyNum toyNum_lawful toyText rfl toyCodec isWordC (fun s => s == "norm") exField
+    exField_valid "bin4" 4 (Or.inl ⟨rfl, rfl⟩) false exField_text F hF 40
+    (by
+      have : 40 < 4 * (1 + natProd exField.mesh.n * writeDim exField false) := by decide
+      omega) none
+
+
+/-- **The strings of a sensible field fit a header line**: the hypothesis `WrittenTextOk` of the
+byte-level theorems holds for every field whose mesh unit has no `:`, newline or white space at
+its ends, whose labels are word characters (`LabelsOk`; `:` is not a word character) and whose
+unit has no white space or `:` and is not the literal `None` (`UnitOkB`). -/
+theorem written_text_ok {α} (isWord : Char → Bool) (W : WordClass isWord) (hcol : isWord ':' = false)
+    (reserved : String → Bool) (f : OField α) (extend : Bool)
+    (hm : TextOk (f.mesh.region.units.getD 0 "").toList)
+    (hl : LabelsOk isWord reserved f) (hu : UnitOkB f.unit) : WrittenTextOk f extend :=
+  writtenTextOk_of isWord W hcol reserved f extend hm hl hu
+
+/-! ## Header fields -/
+/-- **The header of a written file, clause by clause** (OVF 2.0 `rectangular` mesh): whatever the
+representation and `extend_scalar`, the file `_to_ovf` writes starts with `# OOMMF OVF 2.0`, and
+the dictionary the reader's header loop builds from its lines has `Segment count` 1, `meshtype`
+rectangular, `meshunit` the region's unit, `xbase..zbase = pmin + cell/2` (centre of the first
+cell), `xnodes..znodes = n`, `xstepsize..zstepsize = cell`, `xmin..zmax` the region corners,
+`valuedim` the number of components written (3 for an extended scalar field), `valuelabels` and
+`valueunits` as formatted; the data line names the representation. -/
+theorem written_header_fields {α} (c : Codec α) (f : OField α) (rep : String) (extend : Bool) (F : OvfFile α)
+    (hF : toOvf c f rep extend = .ok F) :
+    ∃ h labels rw, scan F.lines [] = some (h, rw) ∧ repWords rep = .ok rw ∧
+      valueLabels f (extend && f.nvdim == 1) = .ok labels ∧
+      F.first = "# OOMMF OVF 2.0" ∧ isV2 F.first = true ∧
+      hnat h "Segment count" = .ok 1 ∧ hget h "meshtype" = .ok (.str "rectangular") ∧
+      hget h "meshunit" = .ok (.str (f.mesh.region.units.getD 0 "")) ∧
+      hnums h "xbase" "ybase" "zbase" = .ok [f.mesh.region.lo 0 + f.mesh.cellAt 0 / 2,
+        f.mesh.region.lo 1 + f.mesh.cellAt 1 / 2, f.mesh.region.lo 2 + f.mesh.cellAt 2 / 2] ∧
+      hnats h "xnodes" "ynodes" "znodes" = .ok [f.mesh.nAt 0, f.mesh.nAt 1, f.mesh.nAt 2] ∧
+      hnums h "xstepsize" "ystepsize" "zstepsize" = .ok [f.mesh.cellAt 0, f.mesh.cellAt 1, f.mesh.cellAt 2] ∧
+      hnums h "xmin" "ymin" "zmin" = .ok [f.mesh.region.lo 0, f.mesh.region.lo 1, f.mesh.region.lo 2] ∧
+      hnums h "xmax" "ymax" "zmax" = .ok [f.mesh.region.hi 0, f.mesh.region.hi 1, f.mesh.region.hi 2] ∧
+      hnat h "valuedim" = .ok (writeDim f extend) ∧
+      hget h "valuelabels" = .ok (.str labels) ∧ hget h "valueunits" = .ok (.str (valueUnits f extend)) := by
+  have hF' : toOvfE c f rep (extend && f.nvdim == 1) = .ok F := hF
+  obtain ⟨labels, rw, hlab, hrw, hfirst, hlines, _⟩ := toOvfE_shape c f rep _ F hF'
+  have H := headerOf_written f (extend && f.nvdim == 1) labels
+  have hv2 : isV2 "# OOMMF OVF 2.0" = true := by decide +kernel
+  have hu : valueUnits f (extend && f.nvdim == 1) = valueUnits f extend := by
+    unfold valueUnits; rw [writeDim_eff]
+  refine ⟨writtenHeader f (extend && f.nvdim == 1) labels, labels, rw, by rw [hlines]; exact scan_written f _ labels rw,
+    hrw, hlab, hfirst, by rw [hfirst]; exact hv2, ?_, ?_, H.mu, ?_, H.nodes, H.step, H.pmin, H.pmax, ?_, ?_, ?_⟩
+  · simp [hnat, hget, writtenHeader, List.find?, HVal.toNat, bind, Except.bind]
+  · simp [hget, writtenHeader, List.find?]
+  · simp [hnums, hnum, hget, writtenHeader, List.find?, HVal.toNum, bind, Except.bind]
+  · rw [← writeDim_eff]
+    simp [hnat, hget, writtenHeader, List.find?, HVal.toNat, bind, Except.bind]
+  · simp [hget, writtenHeader, List.find?]
+  · rw [← hu]; simp [hget, writtenHeader, List.find?]
+
+/-- **The two mesh descriptions of the header agree with each other and with the field**: the mesh
+an independent reader reconstructs from the `base / stepsize / nodes` lines alone (first cell
+centre minus half a step; plus `nodes` steps) and the one given by the `min / max` lines are both
+the field's region, axis by axis; `nodes` steps of `stepsize` span the region exactly. -/
+theorem header_meshes_agree {α} (f : OField α) (V : Valid f) (a : Nat) (ha : a < 3) :
+    (f.mesh.region.lo a + f.mesh.cellAt a / 2) - f.mesh.cellAt a / 2 = f.mesh.region.lo a ∧
+    ((f.mesh.region.lo a + f.mesh.cellAt a / 2) - f.mesh.cellAt a / 2) + (f.mesh.nAt a : Rat) * f.mesh.cellAt a
+      = f.mesh.region.hi a ∧
+    0 < f.mesh.cellAt a := by
+  have hn : (0 : Rat) < (f.mesh.nAt a : Rat) := by exact_mod_cast V.npos a ha
+  have hne : (f.mesh.nAt a : Rat) ≠ 0 := ne_of_gt hn
+  have hlt := V.lt a ha
+  refine ⟨by ring, ?_, ?_⟩
+  · simp only [Mesh.cellAt, Region.edge]
+    field_simp
+    ring
+  · simp only [Mesh.cellAt, Region.edge]
+    apply div_pos
+    · linarith
+    · exact hn
+
+/-- **`valuelabels` and `valueunits` carry one entry per written component** (OVF 2.0: `valuedim`
+labels and units): split at white space, both header values have exactly `valuedim` words. -/
+theorem written_label_unit_counts {α} (isWord : Char → Bool) (W : WordClass isWord) (reserved : String → Bool)
+    (f : OField α) (e : Bool) (hl : LabelsOk isWord reserved f) (hu : UnitOk f.unit) (labels : String)
+    (hlab : valueLabels f e = .ok labels) :
+    (splitWs labels.toList).length = writeDim f e ∧ (splitWs (valueUnits f e).toList).length = writeDim f e := by
+  constructor
+  · unfold valueLabels at hlab
+    split at hlab
+    · rename_i h1
+      injection hlab with hlab; subst hlab
+      rw [h1]; decide
+    · split at hlab
+      · injection hlab with hlab; subst hlab
+        rw [String.toList_ofList, splitWs_joinSp]
+        · simp
+        · intro w hw
+          rw [(List.mem_replicate.mp hw).2]; exact ⟨by decide, by decide⟩
+      · rename_i he
+        split at hlab
+        · cases hlab
+        · rename_i vs hvs
+          injection hlab with hlab; subst hlab
+          have hl2 := hl.2
+          rw [hvs] at hl2
+          rw [String.toList_ofList, splitWs_joinSp]
+          · have : writeDim f e = f.nvdim := by
+              have : e = false := by simpa using he
+              subst this; simp [writeDim]
+            rw [List.length_map, hl2.1, this]
+          · intro w hw
+            obtain ⟨v, hv, rfl⟩ := List.mem_map.mp hw
+            refine ⟨by simp, ?_⟩
+            intro ch hch
+            rcases List.mem_append.mp hch with h1 | h1
+            · have : ∀ d ∈ "field_".toList, d.isWhitespace = false := by decide
+              exact this ch h1
+            · exact W.nows ch ((hl2.2.2 v hv).1.2 ch h1)
+  · unfold valueUnits
+    rw [String.toList_ofList, splitWs_joinSp]
+    · simp
+    · intro w hw
+      rw [(List.mem_replicate.mp hw).2]
+      cases hf : f.unit with
+      | none => exact ⟨by decide, by decide⟩
+      | some u =>
+        rw [hf] at hu
+        have hne : u ≠ "" := by intro h; apply hu.1.1; rw [h]; rfl
+        simp only [unitWord, hne, if_false]
+        exact hu.1
+
+/-! ## Units the header cannot carry (open finding D25): negative theorems -/
+/-- **D25 (open finding), white space**: a field unit that contains white space never comes back
+- `valueunits` is split at white space, so whatever is recovered has none in it.  (Negative
+theorem: the round-trip clause "any unit" is false of the code for these units.) -/
+theorem unit_with_space_not_roundtrip {α} (f : OField α) (extend : Bool) (u : String) (hf : f.unit = some u)
+    (hws : ∃ c ∈ u.toList, c.isWhitespace = true) : recoverUnit (valueUnits f extend) ≠ f.unit := by
+  intro h
+  rw [hf] at h
+  obtain ⟨c, hc, hw⟩ := hws
+  have := recoverUnit_nows _ u h c hc
+  rw [this] at hw; cases hw
+
+/-- **D25, the unit `"None"`**: it is the encoding of "no unit" and never comes back as a unit. -/
+theorem unit_None_not_roundtrip {α} (f : OField α) (extend : Bool) (hf : f.unit = some "None") :
+    recoverUnit (valueUnits f extend) ≠ f.unit := by
+  rw [hf]; exact recoverUnit_ne_None _
+
+/-- **D25, the empty unit**: written as `None`, read back as no unit. -/
+theorem unit_empty_not_roundtrip {α} (f : OField α) (extend : Bool) (hf : f.unit = some "")
+    (hd : 0 < writeDim f extend) : recoverUnit (valueUnits f extend) = none ∧ recoverUnit (valueUnits f extend) ≠ f.unit := by
+  have : recoverUnit (valueUnits f extend) = none := by
+    unfold valueUnits
+    rw [hf]
+    exact recoverUnit_none _ hd
+  exact ⟨this, by rw [this, hf]; exact fun h => by cases h⟩
+
+/-- **D25, a `:` in the unit** (byte level): the header loop keeps of the line
+`# valueunits: <unit> ...` only what stands between the first and the second `:`; the value it
+stores has no `:` left, and no unit recovered from it is the unit that was written. -/
+theorem unit_with_colon_not_roundtrip {α} (N : NumIO) (f : OField α) (extend : Bool) (u : String)
+    (hf : f.unit = some u) (hc : ':' ∈ u.toList) (hd : 0 < writeDim f extend) :
+    ∃ v, classifyLine (renderLine N (.kv "valueunits" (.str (valueUnits f extend)))) = .kv "valueunits" v ∧
+      ':' ∉ v.toList ∧ recoverUnit v ≠ f.unit := by
+  obtain ⟨a, b, hab, ha⟩ := split_at_colon u.toList hc
+  obtain ⟨k, hk⟩ : ∃ k, writeDim f extend = k + 1 := ⟨writeDim f extend - 1, by omega⟩
+  have hne : u ≠ "" := by intro e; subst e; cases hc
+  obtain ⟨r, hr⟩ := joinSp_replicate_succ k u.toList
+  have htext : (valueUnits f extend).toList = a ++ ':' :: (b ++ r) := by
+    unfold valueUnits
+    rw [hf, hk, String.toList_ofList]
+    simp only [unitWord, hne, if_false]
+    rw [hr, hab]; simp
+  have hline : renderLine N (.kv "valueunits" (.str (valueUnits f extend)))
+      = '#' :: ' ' :: ("valueunits".toList ++ ':' :: ' ' :: (a ++ ':' :: (b ++ r))) := by
+    simp only [renderLine, renderVal, htext]
+  have hd' : isDataLine ('#' :: ' ' :: ("valueunits".toList ++ ':' :: ' ' :: (a ++ ':' :: (b ++ r)))) = false :=
+    isDataLine_kv "valueunits" _ (by decide)
+  refine ⟨String.ofList (strip (' ' :: a)), ?_, ?_, ?_⟩
+  · rw [hline, classify_value_colon _ a (b ++ r) hd' (by decide) ha (textOk_of_B _ (by decide)).1]
+    rfl
+  · rw [String.toList_ofList]
+    intro h
+    rcases List.mem_cons.mp (mem_strip _ _ h) with h | h
+    · exact absurd h (by decide)
+    · exact ha h
+  · intro h
+    rw [hf] at h
+    have := recoverUnit_subset _ u h ':' hc
+    rw [String.toList_ofList] at this
+    rcases List.mem_cons.mp (mem_strip _ _ this) with h | h
+    · exact absurd h (by decide)
+    · exact ha h
+
+/-- the D25 theorems apply: units with a blank / a colon exist -/
+example : ∃ c ∈ "A / m".toList, c.isWhitespace = true := ⟨' ', by decide, by decide⟩
+example : ':' ∈ "m:s".toList := by decide
+
+
+/-! ## Labels of foreign writers -/
+
+/-- **OOMMF / mumax label styles**: a `valuelabels` line made of `stem_x` words (OOMMF
+`Magnetization_x`, mumax `m_x`; the label may itself contain underscores), plain words, braced
+phrases `{Total field_x}` and braced multi-word names `{Total energy density}`, separated by
+single blanks, is read to the labels `x`, the word, `x`, `Total_energy_density` - for any number
+of items of any of the four kinds, when the resulting labels are distinct. -/
+theorem labels_foreign_styles (isWord : Char → Bool) (W : WordClass isWord) (its : List Item)
+    (h : ∀ it ∈ its, it.Ok isWord)
+    (hd : hasDup (its.map fun it => String.ofList it.label) = false) :
+    recoverLabels isWord (String.ofList (joinSp (its.map Item.text)))
+      = some (its.map fun it => String.ofList it.label) :=
+  recoverLabels_items isWord W its h hd
+
+/-- ... and when the resulting labels collide (`m_x m_x m_x`), the reader keeps none (the
+constructor then assigns the default labels). -/
+theorem labels_foreign_duplicates (isWord : Char → Bool) (W : WordClass isWord) (its : List Item)
+    (h : ∀ it ∈ its, it.Ok isWord)
+    (hd : hasDup (its.map fun it => String.ofList it.label) = true) :
+    recoverLabels isWord (String.ofList (joinSp (its.map Item.text))) = none :=
+  recoverLabels_items_dup isWord W its h hd
+
+/-- the label theorems on concrete OOMMF / mumax lines (evaluated, not derived) -/
+example : recoverLabels isWordC "{Total field_x} {Total field_y} {Total energy density} Magnetization_z m_full_w"
+    = some ["x", "y", "Total_energy_density", "z", "full_w"] := by decide +kernel
+example : recoverLabels isWordC "m_x m_x m_x" = none := by decide +kernel
+/-- an item list that meets the hypotheses of `labels_foreign_styles` -/
+example : ∀ it ∈ [Item.stem "m".toList "x".toList, Item.phrase "Total field".toList "y".toList,
+    Item.words ["Total".toList, "energy".toList]], it.Ok isWordC := by
+  intro it hit
+  simp only [List.mem_cons, List.mem_nil_iff, or_false] at hit
+  rcases hit with rfl | rfl | rfl
+  · exact ⟨by decide, by decide, by decide⟩
+  · exact ⟨by decide, by decide, by decide⟩
+  · refine ⟨by decide, ?_⟩
+    intro w hw
+    simp only [List.mem_cons, List.mem_nil_iff, or_false] at hw
+    rcases hw with rfl | rfl <;> exact ⟨⟨by decide, by decide⟩, by decide⟩
+
+
+/-! ## All representations, `extend_scalar` on and off, with and without the side-car file
+
+`RepOk rep w`: `rep` is one of `txt` (w = 0), `bin4` (w = 4), `bin8` (w = 8).  `conv narrow w` is
+float32 rounding for w = 4 and the identity otherwise. -/
+/-- **Round trip, all cases at once**: every representation (`txt`, `bin4`, `bin8`; `w` the width
+of a value, 0 for text), `extend_scalar` on or off (it only acts on one-component fields), with
+or without the subregion side-car file.  The file `to_file` writes is read back by `from_file`
+to a field with the same region corners, mesh unit and cell counts; `valuedim` components (3 for
+an extended scalar field, else `nvdim`); the field unit (including none); the subregions of the
+side-car file by name, order and corners (none without it); labels `x, y, z` for an extended
+scalar field and the field's own labels for a vector field; and in every cell and component the
+value written - unchanged for text and bin8, float32-rounded for bin4, `(v, 0, 0)` for an
+extended scalar field. -/
+theorem roundtrip_all {α} [DecidableEq α] (c : Codec α) (narrow : α → α) (L : c.Lawful narrow)
+    (isWord : Char → Bool) (W : WordClass isWord) (reserved : String → Bool)
+    (f : OField α) (V : Valid f) (hl : LabelsOk isWord reserved f) (hu : UnitOk f.unit)
+    (hs : ∀ p ∈ f.mesh.subs, ∃ i j, SubOf f.mesh p.2 i j)
+    (rep : String) (w : Nat) (hrep : RepOk rep w) (extend withSide : Bool) :
+    ∃ F g, toOvf c f rep extend = .ok F ∧
+      fromOvf c isWord reserved F (if withSide then some (saveSub f.mesh) else none) = .ok g ∧
+      g.mesh.region.pmin = f.mesh.region.pmin ∧ g.mesh.region.pmax = f.mesh.region.pmax ∧
+      g.mesh.region.units = f.mesh.region.units ∧ g.mesh.n = f.mesh.n ∧
+      g.nvdim = writeDim f extend ∧ g.unit = f.unit ∧
+      g.mesh.subs.map (fun p => (p.1, p.2.pmin, p.2.pmax))
+        = (if withSide then f.mesh.subs.map (fun p => (p.1, p.2.pmin, p.2.pmax)) else []) ∧
+      ((extend && f.nvdim == 1) = true → g.vdims = some ["x", "y", "z"]) ∧
+      ((extend && f.nvdim == 1) = false → 1 < f.nvdim → g.vdims = f.vdims) ∧
+      ∀ i j k cc, i < f.mesh.nAt 0 → j < f.mesh.nAt 1 → k < f.mesh.nAt 2 → cc < writeDim f extend →
+        g.arr.get [i, j, k, cc] = conv narrow w
+          (if (extend && f.nvdim == 1) then (if cc = 0 then f.arr.get [i, j, k, 0] else c.zero)
+           else f.arr.get [i, j, k, cc]) := by
+  have he : (extend && f.nvdim == 1) = true → f.nvdim = 1 := by
+    intro h; simp only [Bool.and_eq_true, beq_iff_eq] at h; exact h.2
+  rw [← writeDim_eff f extend]
+  show ∃ F g, toOvfE c f rep (extend && f.nvdim == 1) = .ok F ∧ _
+  generalize (extend && f.nvdim == 1) = e at he ⊢
+  obtain ⟨labels, vd', hlab, hset, hv1, hv2⟩ := labels_written_e isWord W reserved f hl V.nv e he
+  obtain ⟨F, hF, hp, _⟩ := written_parse c narrow L f V e he rep w hrep labels hlab
+  obtain ⟨e1, e2, e3⟩ := valid_lists f V
+  have hwd : 0 < writeDim f e := by rw [writeDim_e f e he]; split <;> [omega; exact V.nv]
+  have hcount := payloadE_count c f V e he
+  have M := mesh3_meshOf f.mesh.region.lo f.mesh.region.hi f.mesh.nAt (f.mesh.region.units.getD 0 "") V.lt V.npos
+  -- the side-car file
+  obtain ⟨m', hside, hsubs, hn', hreg⟩ : ∃ m', loadSide (meshOf f.mesh.region.lo f.mesh.region.hi f.mesh.nAt
+        (f.mesh.region.units.getD 0 "")) (if withSide then some (saveSub f.mesh) else none) = .ok m' ∧
+      m'.subs.map (fun p => (p.1, p.2.pmin, p.2.pmax))
+        = (if withSide then f.mesh.subs.map (fun p => (p.1, p.2.pmin, p.2.pmax)) else []) ∧
+      m'.n = [f.mesh.nAt 0, f.mesh.nAt 1, f.mesh.nAt 2] ∧
+      m'.region = regOf f.mesh.region.lo f.mesh.region.hi (f.mesh.region.units.getD 0 "") := by
+    cases withSide with
+    | false => exact ⟨_, rfl, rfl, rfl, rfl⟩
+    | true =>
+      have hsub := subregions_sidecar f.mesh _ M
+        (fun p hp => by
+          obtain ⟨i, j, S⟩ := hs p hp
+          exact ⟨i, j, subOf_meshOf f _ p.2 i j S⟩)
+      refine ⟨_, hsub, ?_, rfl, rfl⟩
+      simp [List.map_map, Function.comp_def, retag]
+  have hg := fromOvf_of_parse_side c isWord reserved F _ _ m' f.mesh.nAt rfl (writeDim f e) hwd _ _ hp
+    hside (by rw [List.length_map]; exact hcount) vd' (by rw [labelsOf_written]; exact hset)
+  refine ⟨F, _, hF, hg, ?_, ?_, ?_, ?_, rfl, ?_, hsubs, hv1, hv2, ?_⟩
+  · show m'.region.pmin = _; rw [hreg]; exact e1
+  · show m'.region.pmax = _; rw [hreg]; exact e2
+  · show m'.region.units = _; rw [hreg]; exact V.units.symm
+  · show m'.n = _; rw [hn']; exact e3
+  · show unitOf (writtenHeader f e labels) = f.unit
+    rw [unitOf_written]
+    exact unit_roundtrip' f e hu hwd
+  · intro i j k cc hi hj hk hcc
+    show ((NDA.ofList ([f.mesh.nAt 0, f.mesh.nAt 1, f.mesh.nAt 2].reverse ++ [writeDim f e])
+      ((payloadE c f e).map (conv narrow w)) c.zero).transpose [2, 1, 0, 3]).get [i, j, k, cc] = _
+    rw [transpose_get4 _ (by simp [NDA.ofList, NDA.ofArray]), ofList_get]
+    have hpos : flatC ([f.mesh.nAt 0, f.mesh.nAt 1, f.mesh.nAt 2].reverse ++ [writeDim f e]) [k, j, i, cc]
+        = pos (f.mesh.nAt 0) (f.mesh.nAt 1) (writeDim f e) i j k cc := by
+      rw [pos_eq_flatC _ _ (f.mesh.nAt 2)]; rfl
+    rw [hpos]
+    have hlt : pos (f.mesh.nAt 0) (f.mesh.nAt 1) (writeDim f e) i j k cc < (payloadE c f e).length := by
+      rw [hcount]
+      have := pos_lt _ _ _ _ _ _ _ _ hi hj hk hcc
+      simp only [natProd] at this ⊢
+      calc _ < _ := this
+        _ = _ := by ring
+    rw [getD_map_lt _ _ _ _ c.zero hlt, payloadE_getD c f V e he i j k cc hi hj hk hcc]
+
+/-- **The written file under an independent reader, all cases at once**: for every
+representation and both settings of `extend_scalar`, the written file is an OVF 2.0 file that
+an independent reader (mesh from the `base / stepsize / nodes` lines alone, little-endian values or
+text rows in x-fastest order, components innermost) decodes to the field's cell counts, cell
+sizes, region (lower face = base - step/2, upper face = lower + nodes·step), mesh unit,
+`valuedim` components and exactly `prod(n)·valuedim` values, the value of cell `(i, j, k)`,
+component `cc` at position `((k·ny + j)·nx + i)·valuedim + cc`. -/
+theorem independent_reader_all {α} [DecidableEq α] (c : Codec α) (narrow : α → α) (L : c.Lawful narrow)
+    (isWord : Char → Bool) (W : WordClass isWord) (reserved : String → Bool)
+    (f : OField α) (V : Valid f) (hl : LabelsOk isWord reserved f)
+    (rep : String) (w : Nat) (hrep : RepOk rep w) (extend : Bool) :
+    ∃ F x, toOvf c f rep extend = .ok F ∧ isV2 F.first = true ∧ refReader c F = .ok x ∧
+      x.nodes = f.mesh.n ∧ x.vd = writeDim f extend ∧ x.meshunit = f.mesh.region.units.getD 0 "" ∧
+      (∀ a, a < 3 → x.step.getD a 0 = f.mesh.cellAt a ∧ x.lo a = f.mesh.region.lo a ∧ x.hi a = f.mesh.region.hi a) ∧
+      x.values.length = natProd f.mesh.n * writeDim f extend ∧
+      ∀ i j k cc, i < f.mesh.nAt 0 → j < f.mesh.nAt 1 → k < f.mesh.nAt 2 → cc < writeDim f extend →
+        x.values.getD (pos (f.mesh.nAt 0) (f.mesh.nAt 1) (writeDim f extend) i j k cc) c.zero
+          = conv narrow w
+              (if (extend && f.nvdim == 1) then (if cc = 0 then f.arr.get [i, j, k, 0] else c.zero)
+               else f.arr.get [i, j, k, cc]) := by
+  have he : (extend && f.nvdim == 1) = true → f.nvdim = 1 := by
+    intro h; simp only [Bool.and_eq_true, beq_iff_eq] at h; exact h.2
+  rw [← writeDim_eff f extend]
+  show ∃ F x, toOvfE c f rep (extend && f.nvdim == 1) = .ok F ∧ _
+  generalize (extend && f.nvdim == 1) = e at he ⊢
+  obtain ⟨labels, _, hlab, _, _, _⟩ := labels_written_e isWord W reserved f hl V.nv e he
+  obtain ⟨F, hF, _, hr⟩ := written_parse c narrow L f V e he rep w hrep labels hlab
+  obtain ⟨_, _, _, _, hfirst, _, _⟩ := toOvfE_shape c f rep e F hF
+  obtain ⟨e1, e2, e3⟩ := valid_lists f V
+  have hcount := payloadE_count c f V e he
+  refine ⟨F, _, hF, by rw [hfirst]; decide +kernel, hr, e3, rfl, rfl, ?_, ?_, ?_⟩
+  · intro a ha
+    have hm := header_meshes_agree f V a ha
+    match a, ha with
+    | 0, _ => exact ⟨rfl, hm.1, hm.2.1⟩
+    | 1, _ => exact ⟨rfl, hm.1, hm.2.1⟩
+    | 2, _ => exact ⟨rfl, hm.1, hm.2.1⟩
+  · show ((payloadE c f e).map (conv narrow w)).length = _
+    rw [List.length_map, hcount, ← e3]
+  · intro i j k cc hi hj hk hcc
+    have hlt : pos (f.mesh.nAt 0) (f.mesh.nAt 1) (writeDim f e) i j k cc < (payloadE c f e).length := by
+      rw [hcount]
+      have := pos_lt _ _ _ _ _ _ _ _ hi hj hk hcc
+      simp only [natProd] at this ⊢
+      calc _ < _ := this
+        _ = _ := by ring
+    show ((payloadE c f e).map (conv narrow w)).getD _ c.zero = _
+    rw [getD_map_lt _ _ _ _ c.zero hlt, payloadE_getD c f V e he i j k cc hi hj hk hcc]
+
+
+/-- **Round trip on bytes, all binary cases**: the statement of `roundtrip_all` for the bytes of
+the file (bin4 / bin8, `extend_scalar` on or off, with or without the side-car file), read by
+the byte-level reader. -/
+theorem roundtrip_all_bytes {α} [DecidableEq α] (N : NumIO) (LN : N.Lawful)
+    (tb : List Byte → List (List α) × List String) (c : Codec α) (narrow : α → α) (L : c.Lawful narrow)
+    (isWord : Char → Bool) (W : WordClass isWord) (reserved : String → Bool)
+    (f : OField α) (V : Valid f) (hl : LabelsOk isWord reserved f) (hu : UnitOk f.unit)
+    (hs : ∀ p ∈ f.mesh.subs, ∃ i j, SubOf f.mesh p.2 i j)
+    (rep : String) (w : Nat) (hrep : (rep = "bin4" ∧ w = 4) ∨ (rep = "bin8" ∧ w = 8)) (extend withSide : Bool)
+    (T : WrittenTextOk f (extend && f.nvdim == 1)) :
+    ∃ B g, toOvfBytes N c f rep extend = .ok B ∧
+      fromOvfBytes N tb c isWord reserved B (if withSide then some (saveSub f.mesh) else none) = .ok g ∧
+      g.mesh.region.pmin = f.mesh.region.pmin ∧ g.mesh.region.pmax = f.mesh.region.pmax ∧
+      g.mesh.region.units = f.mesh.region.units ∧ g.mesh.n = f.mesh.n ∧
+      g.nvdim = writeDim f extend ∧ g.unit = f.unit ∧
+      g.mesh.subs.map (fun p => (p.1, p.2.pmin, p.2.pmax))
+        = (if withSide then f.mesh.subs.map (fun p => (p.1, p.2.pmin, p.2.pmax)) else []) ∧
+      ((extend && f.nvdim == 1) = true → g.vdims = some ["x", "y", "z"]) ∧
+      ((extend && f.nvdim == 1) = false → 1 < f.nvdim → g.vdims = f.vdims) ∧
+      ∀ i j k cc, i < f.mesh.nAt 0 → j < f.mesh.nAt 1 → k < f.mesh.nAt 2 → cc < writeDim f extend →
+        g.arr.get [i, j, k, cc] = conv narrow w
+          (if (extend && f.nvdim == 1) then (if cc = 0 then f.arr.get [i, j, k, 0] else c.zero)
+           else f.arr.get [i, j, k, cc]) := by
+  obtain ⟨F, g, hF, hg, rest⟩ := roundtrip_all c narrow L isWord W reserved f V hl hu hs rep w
+    (Or.inr hrep) extend withSide
+  obtain ⟨_, _, _, _, _, _, hbody⟩ := toOvfE_shape c f rep _ F hF
+  have hne : rep ≠ "txt" := by rcases hrep with ⟨rfl, _⟩ | ⟨rfl, _⟩ <;> decide
+  rcases hbody with ⟨b, hb, _⟩ | ⟨_, _, _, ht⟩
+  · refine ⟨fileBytes N F, g, ?_, ?_, rest⟩
+    · unfold toOvfBytes; rw [hF]
+    · rw [written_bytes_read N LN tb c isWord reserved f rep extend F hF T b hb _, hg]
+  · exact absurd ht hne
+
+/-- the all-cases theorems apply: text representation, `extend_scalar=True` (ignored for the
+three-component example field), with the side-car file -/
+example : ∃ F g, toOvf toyCodec exFieldS "txt" true = .ok F ∧
+    fromOvf toyCodec isWordC (fun s => s == "norm") F (some (saveSub exFieldS.mesh)) = .ok g ∧
+    g.arr.get [1, 0, 2, 1] = 121 ∧ g.vdims = some ["a_b", "c", "d"] := by
+  obtain ⟨F, g, h1, h2, _, _, _, _, _, _, _, _, hv, hd⟩ :=
+    roundtrip_all toyCodec id toyCodec_lawful isWordC isWordC_class (fun s => s == "norm") exFieldS
+      exFieldS_valid exFieldS_labels exField_unit
+      (by
+        intro p hp
+        have : p = ("top_half", exSub) := by simpa [exFieldS] using hp
+        subst this
+        exact ⟨_, _, exSub_of⟩)
+      "txt" 0 (Or.inl ⟨rfl, rfl⟩) true true
+  refine ⟨F, g, h1, h2, ?_, hv (by decide) (by decide)⟩
+  have := hd 1 0 2 1 (by decide) (by decide) (by decide) (by decide)
+  rw [this]; rfl
+
+
+/-! ## Foreign writers: text files, header order -/
+/-- **Foreign text files**: files of an independent OVF 1.0 (three components, no `valuedim`) or
+OVF 2.0 writer in text form are read to that writer's content - mesh from `min / max / stepsize`,
+every value in its own cell and component (x fastest in the file), unchanged. -/
+theorem reader_v1_v2_txt {α} [DecidableEq α] (c : Codec α)
+    (isWord : Char → Bool) (reserved : String → Bool) (v2 : Bool)
+    (x : Content α) (hstep : ∀ a, a < 3 → 0 < x.step.getD a 0) (hn : ∀ a, a < 3 → 0 < x.nodes.getD a 0)
+    (hvd : 0 < x.vd) (hv1 : v2 = false → x.vd = 3)
+    (hcount : x.values.length = natProd [x.nodes.getD 0 0, x.nodes.getD 1 0, x.nodes.getD 2 0] * x.vd) :
+    ∃ g, fromOvf c isWord reserved (refWriter c v2 0 x) none = .ok g ∧
+      g.mesh.n = [x.nodes.getD 0 0, x.nodes.getD 1 0, x.nodes.getD 2 0] ∧
+      g.mesh.region.pmin = [x.lo 0, x.lo 1, x.lo 2] ∧ g.mesh.region.pmax = [x.hi 0, x.hi 1, x.hi 2] ∧
+      g.mesh.region.units = [x.meshunit, x.meshunit, x.meshunit] ∧ g.nvdim = x.vd ∧
+      g.vdims = Fld.defaultVdims x.vd ∧ g.unit = none ∧
+      ∀ i j k cc, i < x.nodes.getD 0 0 → j < x.nodes.getD 1 0 → k < x.nodes.getD 2 0 → cc < x.vd →
+        g.arr.get [i, j, k, cc]
+          = x.values.getD (pos (x.nodes.getD 0 0) (x.nodes.getD 1 0) x.vd i j k cc) c.zero := by
+  have hlt : ∀ a, a < 3 → x.lo a < x.hi a := by
+    intro a ha
+    have h1 := hstep a ha
+    have h2 : (0 : Rat) < (x.nodes.getD a 0 : Rat) := by exact_mod_cast hn a ha
+    unfold Content.lo Content.hi
+    have := mul_pos h2 h1
+    linarith
+  have hc : ∀ a, a < 3 → x.step.getD a 0 = (x.hi a - x.lo a) / ((x.nodes.getD a 0 : Nat) : Rat) := by
+    intro a ha
+    have h2 : ((x.nodes.getD a 0 : Nat) : Rat) ≠ 0 := by
+      have : (0 : Rat) < (x.nodes.getD a 0 : Rat) := by exact_mod_cast hn a ha
+      exact ne_of_gt this
+    unfold Content.lo Content.hi
+    field_simp
+    ring
+  have hscan := scan_ref c v2 0 x
+  rw [if_pos rfl] at hscan
+  have hnpos : 0 < natProd [x.nodes.getD 0 0, x.nodes.getD 1 0, x.nodes.getD 2 0] := by
+    apply natProd_pos
+    intro m hm
+    simp only [List.mem_cons, List.mem_nil_iff, or_false] at hm
+    rcases hm with rfl | rfl | rfl
+    · exact hn 0 (by omega)
+    · exact hn 1 (by omega)
+    · exact hn 2 (by omega)
+  have hdiv : x.values.length / x.vd = natProd [x.nodes.getD 0 0, x.nodes.getD 1 0, x.nodes.getD 2 0] := by
+    rw [hcount]; exact Nat.mul_div_cancel _ hvd
+  have hbody : (refWriter c v2 0 x).body = .text
+      (tab (natProd [x.nodes.getD 0 0, x.nodes.getD 1 0, x.nodes.getD 2 0]) fun r =>
+        tab x.vd fun k => x.values.getD (r * x.vd + k) c.zero) ["# End: Data Text", "# End: Segment"] := by
+    simp [refWriter, hdiv]
+  have hp := parse_txt_ok c (refWriter c v2 0 x) (refHeader v2 x) x.lo x.hi
+    (fun a => x.step.getD a 0) (fun a => x.nodes.getD a 0) x.meshunit (headerOf_ref v2 x) hlt hn hc
+    ["Text"] (by decide +kernel) rfl hscan x.vd (valueDim_ref c v2 0 x hv1) _ _ hbody x.values
+    (readText_rows _ _ _ hnpos hvd hcount c.zero)
+  have hset : vdimsSetter reserved x.vd (labelsOf isWord (refHeader v2 x)) = .ok (Fld.defaultVdims x.vd) := by
+    rw [labelsOf_ref]; rfl
+  have hg := fromOvf_of_parse c isWord reserved _ _ _ _ _ x.vd hvd _ _ hp hcount _ hset
+  refine ⟨_, hg, rfl, rfl, rfl, rfl, rfl, rfl, unitOf_ref v2 x, ?_⟩
+  intro i j k cc hi hj hk hcc
+  show ((NDA.ofList ([x.nodes.getD 0 0, x.nodes.getD 1 0, x.nodes.getD 2 0].reverse ++ [x.vd])
+    x.values c.zero).transpose [2, 1, 0, 3]).get [i, j, k, cc] = _
+  rw [transpose_get4 _ (by simp [NDA.ofList, NDA.ofArray]), ofList_get]
+  have hpos : flatC ([x.nodes.getD 0 0, x.nodes.getD 1 0, x.nodes.getD 2 0].reverse ++ [x.vd]) [k, j, i, cc]
+      = pos (x.nodes.getD 0 0) (x.nodes.getD 1 0) x.vd i j k cc := by
+    rw [pos_eq_flatC _ _ (x.nodes.getD 2 0)]; rfl
+  rw [hpos]
+
+/-- **mumax-style text rows**: a text file whose rows carry one extra trailing entry (the blank
+mumax3 writes at the end of each row, one more empty column for the csv reader) is read to the
+same field as the file without it. -/
+theorem reader_text_trailing_column {α} [DecidableEq α] (c : Codec α) (isWord : Char → Bool)
+    (reserved : String → Bool) (F : OvfFile α) (rows : List (List α)) (footer : List String)
+    (hb : F.body = .text rows footer) (x : List α → α)
+    (hu : ∀ h ws vd, scan F.lines [] = some (h, ws) → valueDim F.first h = .ok vd → ∀ r ∈ rows, r.length = vd)
+    (side : Option (List (String × Region))) :
+    fromOvf c isWord reserved ({ F with body := .text (rows.map fun r => r ++ [x r]) footer } : OvfFile α) side
+      = fromOvf c isWord reserved F side :=
+  fromOvf_text_congr c isWord reserved F rows _ footer footer hb
+    (fun h ws vd nodes hs hv => readText_trailing_column rows nodes vd x (hu h ws vd hs hv)) side
+
+/-- **Header lines in any order**: two files that differ only in the order of their header lines
+(foreign writers order `xmin`, `xbase`, `xnodes`, `meshunit`, ... differently; blank `#` lines may
+move too), each key occurring once, are read to the same result - same field or same rejection. -/
+theorem header_order_irrelevant {α} [DecidableEq α] (c : Codec α) (isWord : Char → Bool) (reserved : String → Bool)
+    (F F' : OvfFile α) (ls ls' : List HLine) (ws : List String)
+    (hl : F.lines = ls ++ [.beginData ws]) (hl' : F'.lines = ls' ++ [.beginData ws])
+    (hperm : ls'.Perm ls) (hnd : ((kvs ls).map Prod.fst).Nodup)
+    (hnodata : ∀ l ∈ ls, ∀ w, l ≠ .beginData w)
+    (hf : F'.first = F.first) (hb : F'.body = F.body) (side : Option (List (String × Region))) :
+    fromOvf c isWord reserved F' side = fromOvf c isWord reserved F side := by
+  have hnodata' : ∀ l ∈ ls', ∀ w, l ≠ .beginData w := fun l hl => hnodata l (hperm.mem_iff.mp hl)
+  have hs := scan_kvs ls ws [] hnodata
+  have hs' := scan_kvs ls' ws [] hnodata'
+  rw [← hl] at hs
+  rw [← hl'] at hs'
+  simp only [List.append_nil] at hs hs'
+  apply fromOvf_congr_header c isWord reserved F F' _ _ ws hs hs' _ hf hb side
+  apply hget_perm
+  · exact (List.reverse_perm _).trans ((kvs_perm ls ls' hperm).trans (List.reverse_perm _).symm)
+  · exact ((List.reverse_perm (kvs ls)).map Prod.fst).nodup_iff.mpr hnd
+
+/-- A key that occurs twice: the later line wins (the loop overwrites the dictionary entry). -/
+theorem later_header_line_wins (ls : List HLine) (ws : List String) (k : String) (v v' : HVal)
+    (hnodata : ∀ l ∈ ls, ∀ w, l ≠ .beginData w) :
+    ∃ h, scan (.kv k v :: ls ++ [.kv k v', .beginData ws]) [] = some (h, ws) ∧ hget h k = .ok v' := by
+  have hnd : ∀ l ∈ HLine.kv k v :: ls ++ [.kv k v'], ∀ w, l ≠ .beginData w := by
+    intro l hl w
+    simp only [List.cons_append, List.mem_cons, List.mem_append, List.mem_nil_iff, or_false] at hl
+    rcases hl with rfl | hl | rfl
+    · intro h; cases h
+    · exact hnodata l hl w
+    · intro h; cases h
+  have := scan_kvs (.kv k v :: ls ++ [.kv k v']) ws [] hnd
+  simp only [List.cons_append, List.append_assoc, List.append_nil] at this
+  refine ⟨_, this, ?_⟩
+  have e : kvs (HLine.kv k v :: (ls ++ [HLine.kv k v'])) = (k, v) :: (kvs ls ++ [(k, v')]) := by
+    have : ∀ l : List HLine, kvs (l ++ [HLine.kv k v']) = kvs l ++ [(k, v')] := by
+      intro l
+      induction l with
+      | nil => rfl
+      | cons x l ih => cases x <;> simp [kvs, ih]
+    simp [kvs, this]
+  rw [e]
+  simp [hget]
+
+
+/-- `header_order_irrelevant` applies: two lines swapped -/
+example : [HLine.kv "xmin" (.num 0), .other, .kv "xmax" (.num 1)].Perm [.kv "xmax" (.num 1), .kv "xmin" (.num 0), .other] ∧
+    ((kvs [HLine.kv "xmax" (.num 1), .kv "xmin" (.num 0), .other]).map Prod.fst).Nodup := by
+  refine ⟨?_, by decide⟩
+  exact (List.Perm.cons _ (List.Perm.swap _ _ _)).trans (List.Perm.swap _ _ _)
+
+/-! ## The driver's IEEE-754 codec: check values and exactness of the check -/
+/-- **The check values, byte for byte**: the writer's check value is the IEEE-754 pattern of
+1234567.0 (binary32, `38 B4 96 49` little endian) resp. 123456789012345.0 (binary64,
+`40 DE 77 83 21 12 DC 42`); OVF 1.0 files carry the same bytes in big-endian order. -/
+theorem check_value_bytes :
+    ieee.enc true 4 (ieee.magic 4) = [56, 180, 150, 73] ∧
+    ieee.enc true 8 (ieee.magic 8) = [64, 222, 119, 131, 33, 18, 220, 66] ∧
+    ieee.enc false 4 (ieee.magic 4) = [73, 150, 180, 56] ∧
+    ieee.enc false 8 (ieee.magic 8) = [66, 220, 18, 33, 131, 119, 222, 64] := by
+  refine ⟨by decide +kernel, by decide +kernel, by decide +kernel, by decide +kernel⟩
+
+/-- **The byte layer of the driver's IEEE codec is lossless** (either endianness, 4 or 8 bytes):
+`dec (enc x)` is `x` rounded to the format - for 4 bytes the float32 rounding `narrow32 x` the
+round-trip theorems call `narrow`; every value occupies exactly `w` bytes. -/
+theorem ieee_byte_layer (le : Bool) (w : Nat) (hw : w = 4 ∨ w = 8) (x : Rat) :
+    (ieee.enc le w x).length = w ∧
+    ieee.dec le w (ieee.enc le w x) = fromBits (fmtOf w) (toBits (fmtOf w) x) ∧
+    ieee.dec le 4 (ieee.enc le 4 x) = narrow32 x :=
+  ⟨ieee_enc_len le w x, ieee_dec_enc le w hw x, ieee_dec_enc4 le x⟩
+
+/-- **The check value test is exact**: among all 4-byte (8-byte) strings, in either byte order,
+the only one that decodes to the check value is the check value's own encoding - one flipped
+low bit is enough to fail the test (a comparison with a tolerance would accept it). -/
+theorem check_value_exact (le : Bool) (w : Nat) (hw : w = 4 ∨ w = 8) (bs : List Nat) (hlen : bs.length = w)
+    (hbytes : ∀ x ∈ bs, x < 256) (h : ieee.dec le w bs = ieee.magic w) :
+    bs = ieee.enc le w (ieee.magic w) := by
+  -- the bytes in little-endian order
+  have key : ∀ cs : List Nat, cs.length = w → (∀ x ∈ cs, x < 256) →
+      fromBits (fmtOf w) (ofLE cs) = ieee.magic w → cs = leBytes w (toBits (fmtOf w) (ieee.magic w)) := by
+    intro cs hl hb hv
+    have hlt := ofLE_lt cs hb
+    rw [hl] at hlt
+    have := leBytes_ofLE cs hb
+    rw [hl] at this
+    rw [← this]
+    congr 1
+    rcases hw with rfl | rfl
+    · have e : toBits (fmtOf 4) (ieee.magic 4) = 0x4996B438 := by decide +kernel
+      rw [e]
+      exact magic4_unique _ (by simpa using hlt) (by simpa [fmtOf, ieee] using hv)
+    · have e : toBits (fmtOf 8) (ieee.magic 8) = 0x42DC12218377DE40 := by decide +kernel
+      rw [e]
+      exact magic8_unique _ (by simpa using hlt) (by simpa [fmtOf, ieee] using hv)
+  cases le with
+  | true =>
+    simp only [ieee, if_true] at h ⊢
+    exact key bs hlen hbytes h
+  | false =>
+    simp only [ieee, Bool.false_eq_true, if_false] at h ⊢
+    have := key bs.reverse (by simpa using hlen) (fun x hx => hbytes x (by simpa using hx)) h
+    have e : (if w = 4 then (1234567 : Rat) else 123456789012345) = ieee.magic w := rfl
+    rw [e, ← this, List.reverse_reverse]
+
+/-- a corrupted low byte: not the check value -/
+example : ieee.dec true 8 [65, 222, 119, 131, 33, 18, 220, 66] ≠ ieee.magic 8 := by
+  intro h
+  have := check_value_exact true 8 (Or.inr rfl) _ rfl (by decide) h
+  revert this; decide +kernel
+
+
+/-- **A wrong check value is rejected, down to the last bit** (the driver's IEEE codec): a binary
+file whose first `w` data bytes are not exactly the bytes of the check value of its width and
+byte order - whatever they are, however close the number they encode - is never read into a
+field. -/
+theorem corrupt_check_value_rejected (isWord : Char → Bool) (reserved : String → Bool) (F : OvfFile Rat)
+    (side : Option (List (String × Region))) (bytes : List Nat) (hbody : F.body = .bin bytes)
+    (hbytes : ∀ x ∈ bytes, x < 256)
+    (hchk : ∀ h ws w, scan F.lines [] = some (h, ws) → dataWidth ws = some w →
+      bytes.take w ≠ ieee.enc (isV2 F.first) w (ieee.magic w)) :
+    ∃ e, fromOvf ieee isWord reserved F side = .error e := by
+  cases hres : fromOvf ieee isWord reserved F side with
+  | error e => exact ⟨e, rfl⟩
+  | ok g =>
+    exfalso
+    obtain ⟨p, mesh, arr, hp, hm, ha⟩ := fromOvf_ok_inv ieee isWord reserved F side g hres
+    obtain ⟨ws, nodes, hscan, hvd, hmesh, hflat⟩ := parse_ok_inv ieee F p hp
+    unfold readBody at hflat
+    rw [hbody] at hflat
+    simp only at hflat
+    split at hflat
+    · cases hw : dataWidth ws with
+      | none =>
+        unfold parse at hp
+        rw [hscan] at hp
+        simp only at hp
+        rename_i hb
+        rw [hb, hw] at hp
+        split at hp
+        · cases hp
+        · simp at hp
+      | some w =>
+        rw [hw] at hflat
+        simp only [Option.getD_some] at hflat
+        obtain ⟨hle, hw48, hmag, _⟩ := readBin_ok_inv ieee _ w bytes _ _ _ hflat
+        apply hchk p.header ws w hscan hw
+        exact check_value_exact (isV2 F.first) w hw48 (bytes.take w)
+          (by rw [List.length_take]; omega) (fun x hx => hbytes x (List.mem_of_mem_take hx)) hmag
+    · cases hflat
+
+
+/-- **bin8 is bit-identical on the IEEE codec**: for every non-NaN binary64 bit pattern `b` (normal,
+subnormal, ±0, ±∞ as their stand-ins), encoding its value in 8 bytes in either byte order and
+decoding gives the same value - the model's rounding (`ilog2`, round-half-even, saturation) leaves
+every value of the format alone. -/
+theorem ieee_bin8_identity (le : Bool) (b : Nat) (hb : NotNaN f64 b) :
+    ieee.dec le 8 (ieee.enc le 8 (fromBits f64 b)) = fromBits f64 b := by
+  rw [ieee_dec_enc le 8 (Or.inr rfl)]
+  exact round_fixed f64 (by decide) b hb
+
+/-- **bin4 is float32 rounding, and float32 rounding is idempotent**: a value that went through a
+bin4 file once is not changed by going through another one. -/
+theorem ieee_bin4_rounding (le : Bool) (x : Rat) :
+    ieee.dec le 4 (ieee.enc le 4 x) = narrow32 x ∧ narrow32 (narrow32 x) = narrow32 x :=
+  ⟨ieee_dec_enc4 le x, narrow32_idem x⟩
+
+/-- **The codec hypothesis discharged**: the driver's IEEE-754 codec, on the rationals that are
+binary64 values (`V64`; a decoded NaN, which is no value, is mapped to 0), satisfies `Codec.Lawful`
+with `narrowV` = float32 rounding.  So every theorem above that assumes a lawful codec holds for
+it - on all fields of binary64 values, bin8 values come back as the same numbers. -/
+theorem ieee_lawful_on_binary64 : ieeeV.Lawful narrowV := ieeeV_lawful
+
+/-- ... for instance the all-cases round trip: with the IEEE codec, for every field of binary64
+values, text and bin8 return every value unchanged and bin4 its float32 rounding. -/
+theorem roundtrip_all_ieee (isWord : Char → Bool) (W : WordClass isWord) (reserved : String → Bool)
+    (f : OField V64) (V : Valid f) (hl : LabelsOk isWord reserved f) (hu : UnitOk f.unit)
+    (hs : ∀ p ∈ f.mesh.subs, ∃ i j, SubOf f.mesh p.2 i j)
+    (rep : String) (w : Nat) (hrep : RepOk rep w) (withSide : Bool) :
+    ∃ F g, toOvf ieeeV f rep false = .ok F ∧
+      fromOvf ieeeV isWord reserved F (if withSide then some (saveSub f.mesh) else none) = .ok g ∧
+      g.mesh.n = f.mesh.n ∧ g.nvdim = f.nvdim ∧ g.unit = f.unit ∧
+      ∀ i j k cc, i < f.mesh.nAt 0 → j < f.mesh.nAt 1 → k < f.mesh.nAt 2 → cc < f.nvdim →
+        g.arr.get [i, j, k, cc] = (if w = 4 then narrowV (f.arr.get [i, j, k, cc]) else f.arr.get [i, j, k, cc]) := by
+  obtain ⟨F, g, h1, h2, _, _, _, hn, hnv, hun, _, _, _, hd⟩ :=
+    roundtrip_all ieeeV narrowV ieeeV_lawful isWord W reserved f V hl hu hs rep w hrep false withSide
+  have hwd : writeDim f false = f.nvdim := by simp [writeDim]
+  refine ⟨F, g, h1, h2, hn, by rw [hnv, hwd], hun, ?_⟩
+  intro i j k cc hi hj hk hcc
+  have := hd i j k cc hi hj hk (by rw [hwd]; exact hcc)
+  simpa [conv] using this
+
+
+/-- `roundtrip_all_ieee` applies: a field of binary64 values on the example mesh -/
+example : ∃ f : OField V64, Valid f ∧ LabelsOk isWordC (fun s => s == "norm") f ∧ UnitOk f.unit :=
+  ⟨{ mesh := exField.mesh, nvdim := 3, arr := ⟨[2, 1, 3, 3], fun _ => ieeeV.zero⟩, vdims := exField.vdims,
+     unit := exField.unit },
+   { pmin3 := exField_valid.pmin3, pmax3 := exField_valid.pmax3, n3 := exField_valid.n3, lt := exField_valid.lt,
+     npos := exField_valid.npos, units := exField_valid.units, nv := exField_valid.nv, shape := rfl },
+   exField_labels, exField_unit⟩
+
+/-- non-NaN patterns exist: 1.0 = 0x3FF0000000000000 -/
+example : NotNaN f64 0x3FF0000000000000 := by unfold NotNaN; decide
+
+
+/-! ## Dispatch by extension; what the writer refuses -/
+/-- **Extension dispatch**: `to_file` writes OVF for exactly `.omf`, `.ovf`, `.ohf`; `from_file`
+reads OVF for these and `.oef`; so every file `to_file` writes as OVF is dispatched to the OVF
+reader by its name. -/
+theorem dispatch_ovf (suffix : String) :
+    (writeKind suffix = .ok "ovf" ↔ suffix = ".omf" ∨ suffix = ".ovf" ∨ suffix = ".ohf") ∧
+    (readKind suffix = .ok "ovf" ↔ suffix = ".omf" ∨ suffix = ".ovf" ∨ suffix = ".ohf" ∨ suffix = ".oef") ∧
+    (writeKind suffix = .ok "ovf" → readKind suffix = .ok "ovf") := by
+  have hw : writeKind suffix = .ok "ovf" ↔ suffix = ".omf" ∨ suffix = ".ovf" ∨ suffix = ".ohf" := by
+    unfold writeKind
+    constructor
+    · intro h
+      split at h
+      · assumption
+      · split at h
+        · injection h with h; exact absurd h (by decide)
+        · split at h
+          · injection h with h; exact absurd h (by decide)
+          · cases h
+    · intro h; rw [if_pos h]
+  have hr : readKind suffix = .ok "ovf" ↔ suffix = ".omf" ∨ suffix = ".ovf" ∨ suffix = ".ohf" ∨ suffix = ".oef" := by
+    unfold readKind
+    constructor
+    · intro h
+      split at h
+      · assumption
+      · split at h
+        · injection h with h; exact absurd h (by decide)
+        · split at h
+          · injection h with h; exact absurd h (by decide)
+          · cases h
+    · intro h; rw [if_pos h]
+  refine ⟨hw, hr, fun h => hr.mpr ?_⟩
+  rcases hw.mp h with h | h | h
+  · exact Or.inl h
+  · exact Or.inr (Or.inl h)
+  · exact Or.inr (Or.inr (Or.inl h))
+
+/-- **What the writer refuses**: a field that is not three-dimensional, a representation other
+than `txt` / `bin4` / `bin8`, different units on different axes, or a vector field without
+labels - no file content is produced, whatever the other arguments. -/
+theorem writer_rejects {α} (c : Codec α) (f : OField α) (rep : String) (extend : Bool) :
+    (f.mesh.region.ndim ≠ 3 → toOvf c f rep extend = .error .runtime) ∧
+    (rep ≠ "txt" → rep ≠ "bin4" → rep ≠ "bin8" → ∃ e, toOvf c f rep extend = .error e) ∧
+    (allSame f.mesh.region.units = false → ∃ e, toOvf c f rep extend = .error e) ∧
+    (1 < f.nvdim → f.vdims = none → ∃ e, toOvf c f rep extend = .error e) := by
+  refine ⟨?_, ?_, ?_, ?_⟩
+  · intro h; unfold toOvf toOvfE; rw [if_pos h]
+  · intro h1 h2 h3
+    unfold toOvf toOvfE
+    split
+    · exact ⟨_, rfl⟩
+    · split
+      · exact ⟨_, rfl⟩
+      · have : repWords rep = .error .value := by
+          unfold repWords
+          split
+          · exact absurd rfl h2
+          · exact absurd rfl h3
+          · exact absurd rfl h1
+          · rfl
+        rw [this]; exact ⟨_, rfl⟩
+  · intro hu
+    unfold toOvf toOvfE
+    split
+    · exact ⟨_, rfl⟩
+    · split
+      · exact ⟨_, rfl⟩
+      · split
+        · exact ⟨_, rfl⟩
+        · rw [hu]; exact ⟨_, rfl⟩
+  · intro hnv hv
+    unfold toOvf toOvfE
+    split
+    · exact ⟨_, rfl⟩
+    · have hne : (f.nvdim == 1) = false := by simpa using (by omega : f.nvdim ≠ 1)
+      have : valueLabels f (extend && f.nvdim == 1) = .error .type := by
+        rw [hne, Bool.and_false]
+        unfold valueLabels
+        have : writeDim f false = f.nvdim := by simp [writeDim]
+        rw [this, if_neg (by omega)]
+        simp [hv]
+      rw [this]; exact ⟨_, rfl⟩
+
+
+/-- a field the writer refuses exists for each clause (e.g. a two-dimensional region) -/
+example : (⟨[0, 0], [1, 1], ["x", "y"], ["m", "m"], 1⟩ : Region).ndim ≠ 3 := by decide
+
+
+/-! ## More non-vacuity -/
+
+/-- `written_text_ok` applies to the example field (unit `A/m`, mesh unit `nm`, labels `a_b, c, d`) -/
+example : WrittenTextOk exField true :=
+  written_text_ok isWordC isWordC_class (by decide) (fun s => s == "norm") exField true
+    (textOk_of_B _ (by decide)) exField_labels ⟨⟨by decide, by decide⟩, by decide, by decide⟩
+
+/-- `roundtrip_all_bytes` applies: bin8, `extend_scalar=True` (ignored for three components) -/
+example : ∃ B g, toOvfBytes toyNum toyCodec exField "bin8" true = .ok B ∧
+    fromOvfBytes toyNum toyText toyCodec isWordC (fun s => s == "norm") B none = .ok g ∧ g.arr.get [1, 0, 2, 1] = 121 := by
+  obtain ⟨B, g, h1, h2, _, _, _, _, _, _, _, _, _, hd⟩ :=
+    roundtrip_all_bytes toyNum toyNum_lawful toyText toyCodec id toyCodec_lawful isWordC isWordC_class
+      (fun s => s == "norm") exField exField_valid exField_labels exField_unit (by intro p hp; cases hp)
+      "bin8" 8 (Or.inr ⟨rfl, rfl⟩) true false
+      (written_text_ok isWordC isWordC_class (by decide) (fun s => s == "norm") exField _
+        (textOk_of_B _ (by decide)) exField_labels ⟨⟨by decide, by decide⟩, by decide, by decide⟩)
+  refine ⟨B, g, h1, h2, ?_⟩
+  have := hd 1 0 2 1 (by decide) (by decide) (by decide) (by decide)
+  rw [this]; rfl
+
+/-- `reader_v1_v2_txt` applies: a 1 x 2 x 1 OVF 1.0 text content -/
+example : ∃ g, fromOvf toyCodec isWordC (fun _ => false)
+    (refWriter toyCodec false 0 { base := [1/2, 1/4, 1], step := [1, 1/2, 2], nodes := [1, 2, 1], vd := 3,
+                                   meshunit := "m", values := [1, 2, 3, 4, 5, 6] }) none = .ok g ∧
+    g.arr.get [0, 1, 0, 2] = 6 := by
+  obtain ⟨g, h, _, _, _, _, _, _, _, hd⟩ := reader_v1_v2_txt toyCodec isWordC (fun _ => false) false
+    { base := [1/2, 1/4, 1], step := [1, 1/2, 2], nodes := [1, 2, 1], vd := 3, meshunit := "m",
+      values := [1, 2, 3, 4, 5, 6] }
+    (by intro a ha; match a, ha with | 0, _ => decide +kernel | 1, _ => decide +kernel | 2, _ => decide +kernel)
+    (by intro a ha; match a, ha with | 0, _ => decide | 1, _ => decide | 2, _ => decide)
+    (by decide) (fun _ => rfl) (by decide)
+  refine ⟨g, h, ?_⟩
+  have := hd 0 1 0 2 (by decide) (by decide) (by decide) (by decide)
+  rw [this]; rfl
+
 
 end DFV.C09
